@@ -70,6 +70,19 @@ loom_init_begin(struct loom *loom, const char *name)
 	return 0;
 }
 
+/* Finds a CPU by its index while the loom is still being loaded, so the
+ * cpus_array is not available yet. */
+static struct cpu *
+find_cpu_by_index(struct loom *loom, int index)
+{
+	for (struct cpu *cpu = loom->cpus; cpu; cpu = cpu->hh.next) {
+		if (cpu_get_index(cpu) == index)
+			return cpu;
+	}
+
+	return NULL;
+}
+
 /* Merges the metadata CPUs with the ones in the loom */
 static int
 load_cpus(struct loom *loom, JSON_Object *meta)
@@ -120,7 +133,7 @@ load_cpus(struct loom *loom, JSON_Object *meta)
 		/* If we reach this point, there shouldn't be a CPU with the
 		 * same index either, as otherwise the phyid should have matched
 		 * before. So it is an error. */
-		if (loom_get_cpu(loom, index) != NULL) {
+		if (find_cpu_by_index(loom, index) != NULL) {
 			err("cpu index %d redefined with another phyid", index);
 			return -1;
 		}
